@@ -308,3 +308,245 @@ def _replace_contract():
 
 
 _replace_contract()
+
+
+# ========================================================================================== add / subtract (C03, C04)
+from contracts.helpers import _add_duration_base, delta_us, has_time
+
+_UNITS = ("years", "months", "weeks", "days", "hours", "minutes", "seconds", "microseconds")
+
+
+def zone_cases2():
+    return {
+        "naive": lambda F: (None, True),
+        "zone": lambda F: stdlib.fresh_zone(F, Timezone, "tz", k=2),
+        "fixed": lambda F: fresh_fixed(F, "tz"),
+    }
+
+
+def _variable(u):
+    return Or(ne(u["years"], 0), ne(u["months"], 0), ne(u["weeks"], 0), ne(u["days"], 0))
+
+
+def add_spec(self, u):
+    """(wall', fold') of self.add(**u) and the side condition under which it is representable (C03 + C04)"""
+    tz = self.tzinfo
+    ty, tmo, w_cal = _add_duration_base._target(self, u)       # calendar arithmetic on the instance's own wall clock
+    d = delta_us(u["weeks"], u["days"], u["hours"], u["minutes"], u["seconds"], u["microseconds"])
+    if tz is None:
+        return w_cal, 1, And(spec.valid_year(ty), stdlib.td_in_range(d), stdlib.in_dt_range(w_cal)), None
+    var = _variable(u)
+    # fixed-length units only: move the UTC instant by exactly the elapsed amount and render it in the zone
+    u0 = zones.instant(self)
+    u1 = sym.add(u0, d)
+    w_fix, f_fix = zones.render_wall(tz, u1), zones.fold_of(tz, u1)
+    # calendar units: wall-clock result, normalised by the construction rules with the default fold
+    w_n, f_n = zones.normalised(tz, w_cal, 1)
+    if zones.is_fixed(tz):
+        f_n = 0
+    ok_cal = And(spec.valid_year(ty), stdlib.td_in_range(d), stdlib.in_dt_range(w_cal), stdlib.in_dt_range(w_n))
+    ok_fix = And(stdlib.in_dt_range(u0), stdlib.td_in_range(d), stdlib.in_dt_range(u1), stdlib.in_dt_range(w_fix))
+    return If(var, w_n, w_fix), If(var, f_n, f_fix), If(var, ok_cal, ok_fix), (var, u1)
+
+
+class _add_base:
+    def requires(self, **u):
+        w, f, ok, _ = add_spec(self, u)
+        return [("self_zone_is_pendulum_or_naive", self.tzinfo is None or is_ptz(self.tzinfo)),
+                ("result_representable", ok)]
+
+    def result(F, self, **u):
+        o, _ = stdlib.fresh_datetime(F, self.cls, "sum", tzinfo=self.tzinfo)
+        return o
+
+    def ensures(result, self, **u):
+        w, f, ok, extra = add_spec(self, u)
+        out = [("valid_fields", stdlib.valid_dt(result)),
+               ("class_and_zone_kept", result.cls is self.cls and zones.same_zone(result.tzinfo, self.tzinfo)),
+               ("wall_clock", eq(spec.wall_us(result), w)), ("fold", eq(result.fold, f))]
+        if extra is not None:
+            var, u1 = extra
+            out += [("fixed_units_move_the_instant_exactly", Implies(Not(var), eq(zones.instant(result), u1))),
+                    ("valid_local_time", zones.is_rendering(result))]
+        return out
+
+
+def _add_args(mk, real_seconds=False, only_fixed=False):
+    def args(F):
+        tz, zc = mk(F)
+        o, inv = fresh_pdt(F, tz)
+        a = dict(self=o)
+        for n in _UNITS:
+            a[n] = 0 if (only_fixed and n in ("years", "months", "weeks", "days")) else F.int(n)
+        if real_seconds:
+            a["seconds"] = F.real("seconds")
+        return a, [zc, inv]
+
+    return args
+
+
+def _add_cases():
+    cases = {}
+    for zname, mk in zone_cases2().items():
+        class general(_add_base):
+            args = _add_args(mk)
+
+            def applies(self, _z=zname, **u):
+                kind = "naive" if self.tzinfo is None else ("fixed" if zones.is_fixed(self.tzinfo) else "zone")
+                return kind == _z
+
+        class real_seconds(_add_base):
+            """+ timedelta goes through add(seconds=<float total_seconds()>)"""
+            args = _add_args(mk, real_seconds=True, only_fixed=True)
+
+            def applies(self, **u):
+                return False
+
+        cases[f"{zname}"] = general
+        cases[f"{zname}.real_seconds"] = real_seconds
+    return cases
+
+
+@contract("pendulum.datetime.DateTime.add", props=["C03", "C04", "C19", "C20", "C16"])
+class dt_add:
+    cases = _add_cases()
+
+
+# ---- delegations to add(): subtract, +/- timedelta and Duration ---------------------------------------------
+import traceback as _traceback
+
+from contracts import duration as _dur
+from pendulum.duration import Duration
+
+
+def _neg_units(u):
+    return {k: sym.neg(v) for k, v in u.items()}
+
+
+def duration_components(d):
+    """years, months, weeks, remaining_days, hours, minutes, remaining_seconds, microseconds of a Duration"""
+    return dict(years=d._years, months=d._months, weeks=d._weeks, days=d._remaining_days,
+                hours=_dur.hours.value(d), minutes=_dur.minutes.value(d), seconds=_dur.remaining_seconds.value(d),
+                microseconds=d._microseconds)
+
+
+def _delegation(units_of, extra_requires=None):
+    """contract clauses of a method that is add() applied to transformed arguments"""
+
+    class base:
+        def requires(self, **a):
+            u = units_of(**a)
+            r = _add_base.requires(self, **u)
+            return r + (extra_requires(self, **a) if extra_requires else [])
+
+        def result(F, self, **a):
+            return _add_base.result(F, self, **units_of(**a))
+
+        def ensures(result, self, **a):
+            return _add_base.ensures(result, self, **units_of(**a))
+
+    return base
+
+
+def _zone_kind(self):
+    return "naive" if self.tzinfo is None else ("fixed" if zones.is_fixed(self.tzinfo) else "zone")
+
+
+def _cases_by_zone(base, argmaker, when=None):
+    cases = {}
+    for zname, mk in zone_cases2().items():
+        class case(base):
+            args = argmaker(mk)
+
+            def applies(self, _z=zname, _ap=when, **a):
+                return _zone_kind(self) == _z and (_ap is None or _ap(self, **a))
+
+        cases[zname] = case
+    return cases
+
+
+@contract("pendulum.datetime.DateTime.subtract", props=["C03", "C04", "C19", "C20", "C16"])
+class dt_subtract:
+    cases = _cases_by_zone(_delegation(lambda **u: _neg_units(u)), _add_args)
+
+
+def _with_delta(kind):
+    def maker(mk):
+        def args(F):
+            tz, zc = mk(F)
+            o, inv = fresh_pdt(F, tz)
+            if kind == "duration":
+                d, dinv = _dur.fresh_duration(F, Duration, "delta")
+            else:
+                d, dinv = stdlib.fresh_td(F, _dt.timedelta, "delta")
+            return dict(self=o, delta=d), [zc, inv, dinv]
+
+        return args
+
+    return maker
+
+
+def _is_duration(x):
+    return isinstance(x, Obj) and x.cls is Duration
+
+
+def _is_plain_td(x):
+    return isinstance(x, Obj) and x.cls is _dt.timedelta
+
+
+def _td_units(us, sign=1):
+    z0 = dict(years=0, months=0, weeks=0, days=0, hours=0, minutes=0, microseconds=0)
+    z0["seconds"] = sym.truediv(sym.mul(us, sign), M)
+    return z0
+
+
+@contract("pendulum.datetime.DateTime._add_timedelta_", props=["C03", "C04"])
+class dt_add_timedelta:
+    cases = dict(
+        **{f"duration.{k}": v for k, v in _cases_by_zone(_delegation(lambda delta: dict(delta._signature)), _with_delta("duration"),
+                                                          when=lambda self, delta: _is_duration(delta)).items()},
+        **{f"timedelta.{k}": v for k, v in _cases_by_zone(_delegation(lambda delta: _td_units(delta.us)), _with_delta("timedelta"),
+                                                           when=lambda self, delta: _is_plain_td(delta)).items()})
+
+
+@contract("pendulum.datetime.DateTime._subtract_timedelta", props=["C03", "C04"])
+class dt_subtract_timedelta:
+    cases = dict(
+        **{f"duration.{k}": v for k, v in _cases_by_zone(_delegation(lambda delta: _neg_units(duration_components(delta))), _with_delta("duration"),
+                                                          when=lambda self, delta: _is_duration(delta)).items()},
+        **{f"timedelta.{k}": v for k, v in _cases_by_zone(_delegation(lambda delta: _td_units(delta.us, -1)), _with_delta("timedelta"),
+                                                           when=lambda self, delta: _is_plain_td(delta)).items()})
+
+
+def _with_other(kind):
+    def maker(mk):
+        inner = _with_delta(kind)(mk)
+
+        def args(F):
+            a, assumptions = inner(F)
+            a["other"] = a.pop("delta")
+            return a, assumptions
+
+        return args
+
+    return maker
+
+
+@contract("pendulum.datetime.DateTime.__add__", props=["C03", "C04"])
+class dt___add__:
+    cases = dict(
+        **{f"duration.{k}": v for k, v in _cases_by_zone(_delegation(lambda other: dict(other._signature)), _with_other("duration"),
+                                                          when=lambda self, other: _is_duration(other)).items()},
+        **{f"timedelta.{k}": v for k, v in _cases_by_zone(_delegation(lambda other: _td_units(other.us)), _with_other("timedelta"),
+                                                           when=lambda self, other: _is_plain_td(other)).items()})
+
+transparent("pendulum.datetime.DateTime.__radd__", why="one-line delegation to __add__")
+
+
+@contract("pendulum.datetime.DateTime.__sub__", props=["C03", "C04", "C05"])
+class dt___sub__:
+    cases = dict(
+        **{f"duration.{k}": v for k, v in _cases_by_zone(_delegation(lambda other: _neg_units(duration_components(other))), _with_other("duration"),
+                                                          when=lambda self, other: _is_duration(other)).items()},
+        **{f"timedelta.{k}": v for k, v in _cases_by_zone(_delegation(lambda other: _td_units(other.us, -1)), _with_other("timedelta"),
+                                                           when=lambda self, other: _is_plain_td(other)).items()})
